@@ -32,7 +32,9 @@ Ltac unmask :=
     [ rewrite if_Rlt_true by lra | rewrite if_Rlt_false by lra
     | rewrite if_Rgt_true by lra | rewrite if_Rgt_false by lra
     | rewrite if_Rle_true by lra | rewrite if_Rle_false by lra
-    | rewrite if_Rge_true by lra | rewrite if_Rge_false by lra ].
+    | rewrite if_Rge_true by lra | rewrite if_Rge_false by lra
+    | rewrite Rmax_left by lra | rewrite Rmax_right by lra
+    | rewrite Rmin_left by lra | rewrite Rmin_right by lra ].
 
 (* asin / acos -> atan (Interval has no asin / acos), side conditions discharged numerically *)
 Ltac to_atan p :=
